@@ -277,6 +277,10 @@ pub enum CombCase {
     /// a bus over a source of `src_len` frames with `outputs` outputs attached up front; `schedule[k]` names the output that
     /// pulls next (an output that is already exhausted does not pull, as a consumer using until_exhausted would not)
     Bus { src_len: u64, outputs: usize, schedule: Vec<usize> },
+    /// a plain rate converter at constant ratio `ratio_q`/4 over a source of `src_len` frames: it must end
+    Conv { src_len: u64, ratio_q: u32, linear: bool },
+    /// `rate.hz(frequency signal of len frames)` used as a signal in its own right (and under a pointwise adaptor)
+    HzSignal { len: u64, scaled: bool },
 }
 
 fn comb_src(len: u64) -> signal::FromIterator<std::vec::IntoIter<f64>> {
@@ -333,6 +337,72 @@ pub fn check_comb(c: &CombCase, st: &mut Stats) -> CheckResult {
             st.class_if(!by_ctl, "mul_hz: the carrier ends first");
             Ok(())
         }
+        CombCase::Conv { src_len, ratio_q, linear } => {
+            ensure!(*ratio_q >= 1, "bad case: ratio must be > 0");
+            let r = *ratio_q as f64 / 4.0;
+            let prime: u64 = if *linear { 2 } else { 1 };
+            // R = frames the source still holds after priming; the converter yields ceil((R+1)/r) frames or one more (C08)
+            let rr = src_len.saturating_sub(prime);
+            let base = (((rr + 1) * 4) + *ratio_q as u64 - 1) / *ratio_q as u64;
+            let cap = base as usize + 50;
+            let mut s1 = comb_src(*src_len);
+            let (n, steps) = if *linear {
+                let a = s1.next();
+                let i = Linear::new(a, s1.next());
+                let n = Converter::scale_playback_hz(s1, i, r).until_exhausted().take(cap).count() as u64;
+                let mut s2 = comb_src(*src_len);
+                let a = s2.next();
+                let i = Linear::new(a, s2.next());
+                let mut cv = Converter::scale_playback_hz(s2, i, r);
+                let mut k = 0u64;
+                while !cv.is_exhausted() && k < cap as u64 {
+                    cv.next();
+                    k += 1;
+                }
+                (n, k)
+            } else {
+                let i = Floor::new(s1.next());
+                let n = Converter::scale_playback_hz(s1, i, r).until_exhausted().take(cap).count() as u64;
+                let mut s2 = comb_src(*src_len);
+                let i = Floor::new(s2.next());
+                let mut cv = s2.scale_hz(i, r);
+                let mut k = 0u64;
+                while !cv.is_exhausted() && k < cap as u64 {
+                    cv.next();
+                    k += 1;
+                }
+                (n, k)
+            };
+            ensure!(n == base || n == base + 1, "a {} converter at ratio {} over a source of {} frames yields {} frames through until_exhausted(), expected {} or {} (it must end)", if *linear { "linear" } else { "floor" }, r, src_len, n, base, base + 1);
+            ensure!(steps == n, "stepping the same converter until is_exhausted() takes {} frames, until_exhausted() yields {}", steps, n);
+            st.nt(true);
+            st.class_if(*ratio_q == 4, "converter at ratio exactly 1 over a finite source");
+            Ok(())
+        }
+        CombCase::HzSignal { len, scaled } => {
+            let freq = || signal::from_iter((0..*len).map(|i| 100.0 + i as f64).collect::<Vec<f64>>());
+            let rate = signal::rate(1000.0);
+            macro_rules! go {
+                ($mk:expr) => {{
+                    let mut s = $mk;
+                    for k in 0..*len + 3 {
+                        let (got, exp) = (s.is_exhausted(), k >= *len);
+                        ensure!(got == exp, "rate.hz(signal of {} frames){}: before pull {} is_exhausted() = {}, expected {}", len, if *scaled { ".scale_amp(..)" } else { "" }, k, got, exp);
+                        let _ = s.next();
+                    }
+                    let n = $mk.until_exhausted().take(*len as usize + 10).count() as u64;
+                    ensure!(n == *len, "rate.hz(signal of {} frames){}: until_exhausted() yields {} frames", len, if *scaled { ".scale_amp(..)" } else { "" }, n);
+                }};
+            }
+            if *scaled {
+                go!(rate.hz(freq()).scale_amp(0.5))
+            } else {
+                go!(rate.hz(freq()))
+            }
+            st.nt(true);
+            st.class("frequency signal (rate.hz) used as a signal");
+            Ok(())
+        }
         CombCase::Bus { src_len, outputs, schedule } => {
             use dasp_signal::bus::SignalBus;
             ensure!(*outputs >= 1, "bad case: no output");
@@ -376,7 +446,7 @@ pub fn run(ctx: &mut Ctx) {
     ctx.set_rule(
         "cases are (frame type with 1..4 channels, adaptor tree over finite sources, consumption mode, extra pulls after exhaustion); sources are signal::from_iter, \
          signal::from_interleaved_samples_iter (with 0..channels-1 trailing samples of an incomplete frame) or instrumented probes; enumerated: every single adaptor and every pair of adaptors x source \
-         length 0..=12 x 4 channel counts x delay 0..=3 x every consumption mode, two-source adaptors with every (L1, L2) <= 6; random: trees to depth 4 (thorough 6); the combining adaptors that are not tree nodes: mul_hz with every (source length <= 8, multiplier-signal length <= 12, ratio k/4 <= 3, floor|linear) and bus outputs under random pull schedules; non-trivial: incomplete trailing frame, \
+         length 0..=12 x 4 channel counts x delay 0..=3 x every consumption mode, two-source adaptors with every (L1, L2) <= 6; random: trees to depth 4 (thorough 6); the combining adaptors that are not tree nodes: mul_hz with every (source length <= 8, multiplier-signal length <= 12, ratio k/4 <= 3, floor|linear) and bus outputs under random pull schedules, plain converters at every ratio k/4 <= 4 over sources of 0..=12 frames (they must end, after ceil((R+1)/r) frames or one more), rate.hz(finite frequency signal) used as a signal; non-trivial: incomplete trailing frame, \
          length 0 or 1, two sources of different length, delay over a finite source, or extra pulls after exhaustion",
     );
     ctx.assume("stream model: a finite source yields its complete frames, then equilibrium; pointwise adaptors keep the length, two-source adaptors take the minimum, delay(k) adds k; is_exhausted() is compared before and after every next()");
@@ -492,6 +562,20 @@ pub fn run(ctx: &mut Ctx) {
         }
     }
     ctx.enumerate("mul_hz-exhaustion", true, cases.into_iter(), check_comb);
+    let mut cases = Vec::new();
+    for src_len in 0..=12u64 {
+        for ratio_q in 1..=16u32 {
+            for linear in [false, true] {
+                cases.push(CombCase::Conv { src_len, ratio_q, linear });
+            }
+        }
+        for scaled in [false, true] {
+            cases.push(CombCase::HzSignal { len: src_len, scaled });
+        }
+    }
+    ctx.require_class("converter at ratio exactly 1 over a finite source");
+    ctx.require_class("frequency signal (rate.hz) used as a signal");
+    ctx.enumerate("converter-and-hz-exhaustion", true, cases.into_iter(), check_comb);
     let bus = (0u64..10, 1usize..=4, proptest::collection::vec(0usize..4, 0..40)).prop_map(|(src_len, outputs, schedule)| CombCase::Bus { src_len, outputs, schedule });
     ctx.prop("bus-output-exhaustion", ctx.pick(5_000, 50_000), bus, check_comb);
 
